@@ -110,6 +110,15 @@ def classes():
                     py4hw.Reg(self, nm, i[0], o[0], enable=i[1] if len(i) > 1 else None)
                 elif c == 'Constant':
                     py4hw.Constant(self, nm, 1, o[0])
+                elif c in ('Scope', 'Waveform'):
+                    # observers: Scope takes wires; Waveform takes wires or PORTS (here ports of the drawn block)
+                    items = list(i)
+                    if nd.get('via') == 'ports':
+                        items = []
+                        for r in nd['ins']:
+                            r = tuple(r)
+                            items.append(self.inPorts[r[1]] if r[0] == 'i' else self.outPorts[exported[r][0]])
+                    getattr(py4hw, c)(self, nm, items)
                 elif c == 'Lib':
                     LIB[nd['lib']]['make'](py4hw, self, nm, i, o, nd.get('opts', {}))
                 else:
@@ -147,7 +156,7 @@ def classes():
     return _K
 
 
-def gen_netlist(rnd, big=False):
+def gen_netlist(rnd, big=False, observer=False):
     W = rnd.choice([1, 4, 8])
     # blocks without input ports exist too (free-running generators): their first node is a constant
     n_in = 0 if rnd.random() < 0.1 else rnd.randrange(1, 5)
@@ -278,6 +287,21 @@ def gen_netlist(rnd, big=False):
     plan = dict(w=W, n_in=n_in, nodes=nodes, outs=outs, name_clash=rnd.random() < 0.15)
     if motif:
         plan['motif'] = motif
+    obs_at = None
+    if observer or rnd.random() < 0.08:
+        # an observer child (no outputs): py4hw.Scope / py4hw.Waveform on wires, or Waveform on ports of the drawn block,
+        # created first, in the middle or last; ordinary readers exist before and after it
+        exported = [tuple(r) for r in outs if r[0] == 'n']
+        by_port = [('i', k) for k in range(n_in)] + exported
+        anysig = [('i', k) for k in range(n_in)] + [('n', a, b) for a, b, nr in outs_of]
+        cls = rnd.choice(['Scope', 'Waveform', 'Waveform'])
+        via = 'ports' if (cls == 'Waveform' and by_port and rnd.random() < 0.6) else 'wires'
+        cands = by_port if via == 'ports' else anysig
+        if cands:
+            picks = rnd.sample(cands, min(len(cands), rnd.randrange(1, 4)))
+            nodes.append(dict(cls=cls, via=via, ins=[list(x) for x in picks], nout=0))
+            obs_at = rnd.choice(['first', 'middle', 'last'])
+            plan['observer'] = dict(cls=cls, via=via, at=obs_at)
     # the order in which the children are instantiated need not follow the data flow
     q = rnd.random()
     if q < 0.25:
@@ -286,6 +310,10 @@ def gen_netlist(rnd, big=False):
         plan['order'] = order
     elif q < 0.35:
         plan['order'] = list(range(len(nodes) - 1, -1, -1))
+    if obs_at:
+        order = [j for j in (plan.get('order') or range(len(nodes))) if j != len(nodes) - 1]
+        order.insert(dict(first=0, middle=len(order) // 2, last=len(order))[obs_at], len(nodes) - 1)
+        plan['order'] = order
     return plan
 
 
@@ -333,7 +361,8 @@ def features(plan):
     return dict(max_fanout=max(fan.values()), feedback_edges=fb, self_loops=selfloop, max_span=span, nodes=len(nodes),
                 lib_nodes=len(lib), lib_optional_ports=sum(len(nd.get('opts') or {}) for nd in lib),
                 multi_output_nodes=sum(1 for nd in nodes if nd.get('nout', 1) > 1),
-                converging_outputs=_converging(nodes), creation_order_permuted=bool(plan.get('order')))
+                converging_outputs=_converging(nodes), creation_order_permuted=bool(plan.get('order')),
+                observer=('%s_%s_%s' % (plan['observer']['cls'], plan['observer']['via'], plan['observer']['at'])) if plan.get('observer') else None)
 
 
 def build(case):
